@@ -94,6 +94,7 @@ type Run struct {
 	Seed     int64              `json:"seed"`
 	Data     []byte             `json:"-"`
 	Meta     *metaPlan          `json:"-"`
+	Gen1     uint16             `json:"-"` // the concrete generation behind the generation 1 of the model (0: 1)
 	MetaDiff string             `json:"-"` // first difference of the document-level round trip
 	Written  map[[2]int]Written `json:"-"`
 }
@@ -118,7 +119,7 @@ func ParseLabel(label string) (Op, error) {
 	args := m[2]
 	unq := func(s string) string { return strings.Trim(strings.TrimSpace(s), `"`) }
 	switch op.Op {
-	case "Alloc", "OpenWhileOpen", "CloseStream", "Close", "CloseWhileOpen":
+	case "Alloc", "OpenWhileOpen", "CloseStream", "Close", "CloseBad", "CloseWhileOpen":
 	case "AllocN":
 		op.K, _ = strconv.Atoi(strings.TrimSpace(args))
 	case "Put", "PutStm":
@@ -336,6 +337,9 @@ type metaPlan struct {
 	PageLayout pdf.Name
 	PageMode   pdf.Name
 	Lang       string
+	Gen1       uint16 // generation behind the model's generation 1
+	BadClose   bool   // the plan holds something the version does not allow: Close must refuse
+	BadOpen    bool   // the ID is not allowed for the version: NewWriter must refuse
 }
 
 // text strings of the three encodings a TextString can take in a file:
@@ -363,13 +367,26 @@ func newMetaPlan(r *rand.Rand, version pdf.Version) *metaPlan {
 	}
 	if r.Intn(3) == 0 && version >= pdf.V1_3 {
 		m.Info.Trapped.Set(r.Intn(2) == 0)
+	} else if r.Intn(8) == 0 && version < pdf.V1_3 {
+		// /Trapped is a PDF 1.3 entry: the Writer refuses it at Close
+		m.Info.Trapped.Set(r.Intn(2) == 0)
+		m.BadClose = true
 	}
+	m.Gen1 = []uint16{1, 1, 2, 65535, 65535}[r.Intn(5)]
 	if r.Intn(3) == 0 {
 		m.Info.Custom = map[string]string{"HarnessKey": string(t()), "Another Key": "v"}
 	}
 	switch {
 	case version == pdf.V1_0:
 		// no ID in PDF 1.0
+	case r.Intn(8) == 0:
+		// one part: the Writer adds the second; PDF 2.0 wants 16 bytes per part
+		if r.Intn(2) == 0 {
+			m.ID = [][]byte{[]byte("one part of 18 byte")[:18]}
+		} else {
+			m.ID = [][]byte{[]byte("short-id")}
+			m.BadOpen = version == pdf.V2_0
+		}
 	case r.Intn(3) == 0 && version < pdf.V2_0:
 		m.ID = [][]byte{[]byte("short"), {0, 1, 2, 255}} // any length is allowed before PDF 2.0
 	case r.Intn(3) == 0:
@@ -433,6 +450,13 @@ func (m *metaPlan) diff(meta *pdf.MetaInfo, version pdf.Version) string {
 	if meta.Catalog.PageLayout != m.PageLayout || meta.Catalog.PageMode != m.PageMode {
 		return fmt.Sprintf("Catalog PageLayout/PageMode %q %q, want %q %q", meta.Catalog.PageLayout, meta.Catalog.PageMode, m.PageLayout, m.PageMode)
 	}
+	if len(m.ID) == 1 && len(meta.ID) == 2 {
+		// the Writer added the second part
+		if !bytes.Equal(meta.ID[0], m.ID[0]) {
+			return fmt.Sprintf("ID[0] %x, want %x", meta.ID[0], m.ID[0])
+		}
+		return ""
+	}
 	if len(meta.ID) != len(m.ID) {
 		return fmt.Sprintf("ID has %d parts, want %d", len(meta.ID), len(m.ID))
 	}
@@ -480,7 +504,9 @@ func Execute(cfg Config, prog []Op, seed int64) (run Run, err error) {
 		// an own source: the draws below must not depend on the plan
 		run.Meta = newMetaPlan(rand.New(rand.NewSource(seed^0x6d657461)), version)
 		id = run.Meta.ID
+		run.Gen1 = run.Meta.Gen1
 	}
+	gen := func(g int) uint16 { return uint16(run.ConcreteGen(g)) }
 	if version > pdf.V1_0 {
 		opt.ID = id
 	}
@@ -490,6 +516,11 @@ func Execute(cfg Config, prog []Op, seed int64) (run Run, err error) {
 		w, err = pdf.NewWriter(sink, version, opt)
 	} else {
 		w, err = pdf.NewWriter(nonSeekable{sink}, version, opt)
+	}
+	if err != nil && run.Meta != nil && run.Meta.BadOpen {
+		// refused as it must be: nothing was written (the record has no calls)
+		run.Ops = []Op{}
+		return run, nil
 	}
 	if err != nil {
 		return run, fmt.Errorf("NewWriter: %w", err)
@@ -523,11 +554,15 @@ func Execute(cfg Config, prog []Op, seed int64) (run Run, err error) {
 		op := &prog[i]
 		op.ArgsOK = true
 		var cerr error
+		// which of Close / CloseBad applies is decided by the document-level plan
+		if bad := run.Meta != nil && run.Meta.BadClose; (op.Op == "Close" || op.Op == "CloseBad") && stm == nil {
+			op.Op = map[bool]string{true: "CloseBad", false: "Close"}[bad]
+		}
 		// calls that make no sense in the current mode are dropped from random programs
 		if (op.Op == "StreamWrite" || op.Op == "CloseStream" || op.Op == "OpenWhileOpen" || op.Op == "CloseWhileOpen") && stm == nil {
 			continue
 		}
-		if (op.Op == "OpenStream" || op.Op == "OpenStreamBad" || op.Op == "WriteCompressed" || op.Op == "Close") && stm != nil {
+		if (op.Op == "OpenStream" || op.Op == "OpenStreamBad" || op.Op == "WriteCompressed" || op.Op == "Close" || op.Op == "CloseBad") && stm != nil {
 			continue
 		}
 		var fatal error
@@ -548,7 +583,7 @@ func Execute(cfg Config, prog []Op, seed int64) (run Run, err error) {
 				}
 			case "Put":
 				before := snapshot(pvals[op.V])
-				cerr = w.Put(pdf.NewReference(uint32(op.N), uint16(op.G)), pvals[op.V])
+				cerr = w.Put(pdf.NewReference(uint32(op.N), gen(op.G)), pvals[op.V])
 				op.ArgsOK = snapshot(pvals[op.V]) == before
 				if cerr == nil {
 					wr := Written{ID: op.V, Value: vals[op.V]}
@@ -560,7 +595,7 @@ func Execute(cfg Config, prog []Op, seed int64) (run Run, err error) {
 				}
 			case "PutStm":
 				before := snapshot(pstm[op.V].Dict)
-				cerr = w.Put(pdf.NewReference(uint32(op.N), uint16(op.G)), pstm[op.V])
+				cerr = w.Put(pdf.NewReference(uint32(op.N), gen(op.G)), pstm[op.V])
 				op.ArgsOK = snapshot(pstm[op.V].Dict) == before
 				if again, rerr := io.ReadAll(pstm[op.V].NewReader()); rerr != nil || !bytes.Equal(again, pbody[op.V]) {
 					op.ArgsOK = false
@@ -599,7 +634,7 @@ func Execute(cfg Config, prog []Op, seed int64) (run Run, err error) {
 				if op.Lg == "none" {
 					filters = filterFor(strings.TrimPrefix(cfg.Filter, "pre:"))
 				}
-				stm, cerr = w.OpenStream(pdf.NewReference(uint32(op.N), uint16(op.G)), d, filters...)
+				stm, cerr = w.OpenStream(pdf.NewReference(uint32(op.N), gen(op.G)), d, filters...)
 				op.ArgsOK = snapshot(d) == before
 				if cerr != nil {
 					stm = nil
@@ -608,7 +643,7 @@ func Execute(cfg Config, prog []Op, seed int64) (run Run, err error) {
 				}
 			case "OpenStreamBad":
 				// refused for its arguments: nothing may be recorded
-				ref := pdf.NewReference(uint32(op.N), uint16(op.G))
+				ref := pdf.NewReference(uint32(op.N), gen(op.G))
 				d := shared.ToPDF(sdict["a"]).(pdf.Dict)
 				var bad []pdf.Filter
 				if op.Why == "filterVersion" {
@@ -691,7 +726,7 @@ func Execute(cfg Config, prog []Op, seed int64) (run Run, err error) {
 				}
 			case "CloseWhileOpen":
 				cerr = w.Close()
-			case "Close":
+			case "Close", "CloseBad":
 				pref := w.Alloc()
 				if cerr = w.Put(pref, pagesDict); cerr == nil {
 					w.GetMeta().Catalog.Pages = pref
@@ -739,6 +774,15 @@ func Execute(cfg Config, prog []Op, seed int64) (run Run, err error) {
 	return run, nil
 }
 
+// ConcreteGen maps a generation of the model (0 or 1) to the generation used
+// in the file.
+func (r *Run) ConcreteGen(g int) int {
+	if g == 1 && r.Gen1 != 0 {
+		return int(r.Gen1)
+	}
+	return g
+}
+
 // readBack opens the produced file with the real Reader and classifies what
 // every reference resolves to.
 func readBack(run *Run, version pdf.Version, id [][]byte) {
@@ -783,7 +827,7 @@ func readBack(run *Run, version pdf.Version, id [][]byte) {
 }
 
 func classify(rd *pdf.Reader, run *Run, n, g int) string {
-	ref := pdf.NewReference(uint32(n), uint16(g))
+	ref := pdf.NewReference(uint32(n), uint16(run.ConcreteGen(g)))
 	v, err := rd.Get(ref, true)
 	if err != nil {
 		return "error:" + err.Error()
